@@ -138,10 +138,11 @@ class ConveyorBelt(Edge):
     def can_get(self):
         """Check if an item can be retrieved from the belt."""
         #first_item_to_go_out = self.items[0] if self.items else None
-        if not self.out_buf.items:
-            return False
-        else:
-           return True
+        # True exactly when a retrieval reservation issued now would be granted at once
+        probe = self.belt.reserve_get()
+        granted = probe.triggered
+        self.belt.reserve_get_cancel(probe)
+        return granted
 
     def is_stalled(self):
           """Check if the belt is stalled due to time constraints."""
@@ -152,10 +153,11 @@ class ConveyorBelt(Edge):
 
     def can_put(self):
         """Check if an item can be added to the belt."""
-        if not self.inp_buf.items:
-            return True
-        else:
-            return False
+        # True exactly when a space reservation issued now would be granted at once
+        probe = self.belt.reserve_put()
+        granted = probe.triggered
+        self.belt.reserve_put_cancel(probe)
+        return granted
     
     def reserve_put(self):
        return self.belt.reserve_put()
